@@ -199,5 +199,6 @@ RELATED = {
     "isotopes": ["isotopes", "isotope_option", "plain"], "entities": ["leftover_use", "leftover_cells", "dump_all", "mix_copy"],
     "species": ["leftover_species", "plain"], "surface": ["surface_dl"], "gas": ["gas_ss"], "inverse": ["inverse"],
     "callback": ["callback", "callback", "basic_memory"],
+    "sinks": ["dump_all", "plain", "selout_defaults", "solver_trace"],
     "fail": ["solver_trace", "plain", "leftover_cells", "dump_all", "mix_copy"], "temp": ["temp_press", "plain"],
 }
